@@ -106,6 +106,19 @@ def probes(tier="quick"):
     P += ["x = '" + "a" * 100000 + "'\n", "x = " + "1" * 50000 + "\n", "x = 0x" + "f" * 50000 + "\n", "x = 1e" + "9" * 400 + "\n", "x = 1." + "0" * 5000 + "j\n",
           "# " + "c" * 100000 + "\n", "\n" * 100000, " " * 100000, "\t" * 5000 + "x\n", "x = 1;" * 30000 + "\n", "\\\n" * 30000 + "x\n", "(" + "\n" * 30000 + ")\n",
           "x = '''" + "\n" * 30000 + "'''\n", "if x:\n" + "".join(" " * (i % 7 + 1) + "y\n" for i in range(50))]
+    # element counts around the widths of packed operands (one byte / two bytes): every construct whose
+    # operand is a count or a pair of counts
+    counts = [254, 255, 256, 257, 300, 600] + ([65535, 65536, 65537] if tier != "quick" else [])
+    for n in counts:
+        names = ["b%d" % i for i in range(n)]; lst = ", ".join(names)
+        P += ["*a, %s = q\n" % lst, "%s, *a = q\n" % lst, "c, *a, %s = q\n" % lst, "%s, *a, c = q\n" % lst, "[*a, %s] = q\n" % lst,
+              "for *a, %s in q: pass\n" % lst, "[0 for *a, %s in q]\n" % lst, "%s = q\n" % lst, "x = (%s)\n" % lst, "x = [%s]\n" % lst, "x = {%s}\n" % lst,
+              "x = {%s}\n" % ", ".join("%s: 0" % v for v in names), "f(%s)\n" % lst, "f(%s)\n" % ", ".join("%s=0" % v for v in names), "f(*p, %s)\n" % ", ".join("%s=0" % v for v in names),
+              "def g(%s): pass\n" % lst, "def g(%s): pass\n" % ", ".join("%s=0" % v for v in names), "def g(*, %s): pass\n" % ", ".join("%s=0" % v for v in names),
+              "def g(%s): pass\n" % ", ".join("%s: 0" % v for v in names), "lambda %s: 0\n" % ", ".join("%s=0" % v for v in names), "class D(%s): pass\n" % lst,
+              "from m import %s\n" % lst, "import %s\n" % lst, "global %s\n" % lst, "def g():\n    nonlocal %s\n" % lst, "del %s\n" % lst, "x = %s\n" % " < ".join(names),
+              "with %s: pass\n" % ", ".join("%s as c%s" % (v, v) for v in names), "x = %s\n" % " if c else ".join(names[:min(n, 600)]), "".join("@%s\n" % v for v in names[:min(n, 600)]) + "def g(): pass\n",
+              "try:\n    pass\n" + "".join("except %s:\n    pass\n" % v for v in names[:min(n, 600)]), "def g():\n    %s = 0\n    def h():\n        return %s\n" % (" = ".join(names[:min(n, 600)]), lst if n <= 600 else "b0")]
     return P
 
 # ---- assembler streams
@@ -264,7 +277,7 @@ def check(res):
         else: new.append((k, m, s, o))
     res.oblige("search: %d byte sequences x 3 modes: code object or located SyntaxError-family exception, no panic, no hang" % len(srcs), not new, str(new[:1])[:300])
     res.coverage.update(evaluations=3 * len(srcs) + len(streams), distinct_nontrivial=cnt["code"] + sum(1 for o in obs if not o.startswith("PANIC")), programs=len(srcs),
-        rule="exhaustive sequences of length <= %d over an alphabet of %d tokens/fragments (keywords, operators, literals incl. malformed ones, indentation, control bytes, non-ASCII), joined with and without spaces and with a final newline; seeded random sequences of length 3-10; %d token mutations (delete/insert/replace/swap/duplicate) of each of %d base programs (every .py of the repository and generator programs); the unmutated programs; random and systematic nestings of def/class/lambda/comprehension with names bound, read, deleted, declared global/nonlocal at every level; %d structured probes (statement forms x enclosing contexts, parameter and argument list forms, forbidden targets, size extremes: 300 arguments, 3000 (quick) / 70000 (thorough) constants and names, nesting depth up to 1200, bodies over 64K of bytecode in every jump-carrying statement, extension cascades around the 64K boundary, huge literals/lines); random byte strings; all three modes; 30 s watchdog per compilation (600 s for sources over 200 KB: the constant table lookup is quadratic); non-trivial = a code object came out" % (maxlen, len(ALPHA), per, len(base), len(probes(tier))),
+        rule="exhaustive sequences of length <= %d over an alphabet of %d tokens/fragments (keywords, operators, literals incl. malformed ones, indentation, control bytes, non-ASCII), joined with and without spaces and with a final newline; seeded random sequences of length 3-10; %d token mutations (delete/insert/replace/swap/duplicate) of each of %d base programs (every .py of the repository and generator programs); the unmutated programs; random and systematic nestings of def/class/lambda/comprehension with names bound, read, deleted, declared global/nonlocal at every level; %d structured probes (statement forms x enclosing contexts, parameter and argument list forms, forbidden targets, size extremes: 300 arguments, element counts 254/255/256/257/300/600 (thorough: also 65535/65536/65537) in every construct whose operand packs a count (star-unpacking before/after the star, displays, calls, defaults, keyword-only defaults, annotations, bases, imports, global/nonlocal/del lists, comparison chains, with items, decorators, handlers, closures), 3000 (quick) / 70000 (thorough) constants and names, nesting depth up to 1200, bodies over 64K of bytecode in every jump-carrying statement, extension cascades around the 64K boundary, huge literals/lines); random byte strings; all three modes; 30 s watchdog per compilation (600 s for sources over 200 KB: the constant table lookup is quadratic); non-trivial = a code object came out" % (maxlen, len(ALPHA), per, len(base), len(probes(tier))),
         samples=[dict(source=srcs[777].decode("latin-1")[:80], result=results[777])],
         distribution=dict(kinds=dict(collections.Counter(kinds)), outcomes=dict(cnt), assembler_outcomes=dict(okind)),
         modelled_not_verified=["lexer, grammar actions, symbol table pass 1 and compile.go are searched, not proved", "stack-depth computation"])
